@@ -1,5 +1,6 @@
-"""C08 — a released session leaves nothing behind (Reed-Solomon codecs; LDPC not reached)."""
+"""C08 — a released session leaves nothing behind (Reed-Solomon and LDPC-Staircase sessions, BOUNDED)."""
 from ofvlib.core import Job, DEFAULT_CHECKS
+from checks import lbc
 
 API = "src/lib_common/of_openfec_api.c"
 SRCS = [API, "src/lib_common/of_mem.c", "src/lib_stable/reed-solomon_gf_2_8/of_reed-solomon_gf_2_8_api.c",
@@ -12,7 +13,7 @@ INFO = {
     "level": "model_checking",
     "explanation": "whole-session contract on tiny Reed-Solomon instances: every protocol-conforming history of <= N calls with release at an arbitrary "
                    "point; cbmc memory-leak check + pointer checks; codec core replaced by allocation-faithful stubs",
-    "assumptions": ["LDPC-Staircase sessions are NOT decided", "allocation-faithful stubs stand for of_rs_new/of_rs_free and of_rs_2m_build_encoding_matrix (what they allocate is what the real release frees)"],
+    "assumptions": ["LDPC-Staircase sessions: small codes, release after every prefix of a few histories (both APIs, with/without finish, callback returning a buffer or NULL); the matrix construction is replaced by a stub that allocates through the real of_mod2sparse_allocate/insert", "allocation-faithful stubs stand for of_rs_new/of_rs_free and of_rs_2m_build_encoding_matrix (what they allocate is what the real release frees)"],
     "trusted": [],
 }
 
@@ -30,4 +31,5 @@ def jobs(tier, seed):
                           unwind=k + r + 3, object_bits=12, timeout=1800, mem_gb=10, status="bounded", solver="cadical", native=False,
                           checks=DEFAULT_CHECKS + ["--memory-leak-check"],
                           bound="k=%d, n-k=%d, length 2, histories of <= %d calls, release at any point" % (k, r, steps)))
+    js += lbc.release_jobs(tier, seed, prop="C08") + [j for i, j in enumerate(lbc.cb_jobs(tier, seed, prop="C08", prefix="relcb", group_prefix="lbc_release_callbacks")) if tier != "quick" or i % 2 == 0]
     return js
